@@ -722,3 +722,94 @@ def c04_pairs(seed):
     pairs.append(dict(a=Side(fun_text, p, label='with :='), b=Side(base.text(), p, label='without :='),
                       tables=tables, K=2, strings_list=[], label='untouched %s %s' % (p, notes)))
   return pairs
+
+
+# ---------------------------------------------------------------- C17: @Ground and re-runs
+
+def c17_pairs(seed):
+  from .ground import HistorySide, DB_PLACEHOLDER
+  rnd = random.Random(seed ^ 0xc17)
+  A = gen.A
+  x, y, z, s = Var('x'), Var('y'), Var('z'), Var('s')
+  dataset = rnd.choice(['logica_home', 'logica_test'])
+  rules = []
+  mkind = rnd.choice(['agg', 'join', 'multi', 'helper', 'plain', 'helper'])
+  if mkind == 'agg':
+    rules.append(Rule('M', [x], [('s', Agg('Sum', y))], distinct=True, body=A('E', x, y)))
+    def M(a, b):
+      return Atom('M', [a], [('s', b)])
+  elif mkind == 'join':
+    rules.append(Rule('M', [x, y], body=Conj([A('E', x, z), A('F', z, y)])))
+    def M(a, b):
+      return Atom('M', [a, b], [])
+  elif mkind == 'multi':
+    rules.append(Rule('M', [x, y], body=A('E', x, y)))
+    rules.append(Rule('M', [x, y], body=A('F', y, x)))
+    def M(a, b):
+      return Atom('M', [a, b], [])
+  elif mkind == 'helper':
+    # non-injectable helper built on another non-injectable helper
+    rules.append(Rule('T2', [x, y], body=A('E', x, y)))
+    rules.append(Rule('T2', [x, y], body=A('F', x, y)))
+    rules.append(Rule('Tt', [x], [('total', Agg('Sum', y))], distinct=True, body=A('T2', x, y)))
+    rules.append(Rule('M', [x, y], body=Conj([Atom('Tt', [x], [('total', y)]), Cmp('>', y, Num(rnd.choice([0, 1])))])))
+    def M(a, b):
+      return Atom('M', [a, b], [])
+  else:
+    rules.append(Rule('M', [x, y], body=Conj([A('E', x, y), Cmp('!=', x, y)])))
+    def M(a, b):
+      return Atom('M', [a, b], [])
+  nkind = rnd.choice(['join', 'filter', 'neg', 'agg_expr', 'with_helper', 'two_grounds', 'neg', 'agg_expr'])
+  grounded = ['M']
+  if nkind == 'join':
+    rules.append(Rule('N', [x, y], body=Conj([M(x, y), A('G', x)])))
+  elif nkind == 'filter':
+    rules.append(Rule('N', [x, y], body=Conj([M(x, y), Cmp('>', y, Num(0))])))
+  elif nkind == 'neg':
+    rules.append(Rule('N', [x], body=Conj([A('G', x), Neg(M(x, y))])))
+  elif nkind == 'agg_expr':
+    rules.append(Rule('N', [x, z], body=Conj([A('G', x), Cmp('==', z, AggE('Sum', y, Conj([M(x, y)]), 'brace'))])))
+  elif nkind == 'with_helper' and mkind == 'helper':
+    order = [M(x, y), Atom('Tt', [x], [('total', z)])]
+    if rnd.random() < 0.5:
+      order.reverse()
+    rules.append(Rule('N', [x, y, z], body=Conj(order)))
+  elif nkind == 'two_grounds':
+    rules.append(Rule('M2', [x], distinct=True, body=M(x, y)))
+    rules.append(Rule('N', [x], body=Conj([A('M2', x), A('G', x)])))
+    grounded.append('M2')
+  else:
+    rules.append(Rule('N', [x, y], body=Conj([M(x, y), A('G', y)])))
+  ann = ['@AttachDatabase("%s", "%s");' % (dataset, DB_PLACEHOLDER)] + ['@Ground(%s);' % g for g in grounded]
+  prog = Program(rules, ann, ext=gen.EXT)
+  plain = Program(rules, [], ext=gen.EXT)
+  text = prog.text()
+  tables = sorted({t for t in ('E', 'F', 'G') if t + '(' in text})
+  K = 2
+  notes = '%s/%s/%s' % (mkind, nkind, dataset)
+  common = dict(tables=tables, K=K, strings_list=[])
+  pairs = []
+  # dependant's rows == program without @Ground
+  pairs.append(dict(a=HistorySide(text, ['N'], label='grounded run'), b=Side(plain.text(), 'N', label='no @Ground'),
+                    label='rows N %s' % notes, **common))
+  for g in grounded:
+    tbl = '%s.%s' % (dataset, g)
+    # after a run of the dependant the table holds exactly what the predicate evaluates to
+    pairs.append(dict(a=HistorySide(text, ['N'], ('table', tbl), label='table after run'),
+                      b=Side(plain.text(), g, label='predicate alone'),
+                      label='table %s after N %s' % (g, notes), **common))
+    # asking for the grounded predicate itself prints it ...
+    pairs.append(dict(a=HistorySide(text, [g], label='print grounded'), b=Side(plain.text(), g, label='predicate alone'),
+                      label='print %s %s' % (g, notes), **common))
+    # ... without writing it: table after [N, g] == table after [N]
+    pairs.append(dict(a=HistorySide(text, ['N', g], ('table', tbl), label='N then print', forbid_write=tbl),
+                      b=HistorySide(text, ['N'], ('table', tbl), label='N'),
+                      label='no write by print %s %s' % (g, notes), **common))
+  # re-running is idempotent: same rows and same table contents
+  hist = rnd.choice([['N', 'N'], ['N', 'M', 'N'], ['N', 'N', 'N']])
+  pairs.append(dict(a=HistorySide(text, hist, label='re-run'), b=HistorySide(text, ['N'], label='first run'),
+                    label='rerun rows %s %s' % ('>'.join(hist), notes), **common))
+  pairs.append(dict(a=HistorySide(text, hist, ('table', '%s.M' % dataset), label='re-run'),
+                    b=HistorySide(text, ['N'], ('table', '%s.M' % dataset), label='first run'),
+                    label='rerun table %s %s' % ('>'.join(hist), notes), **common))
+  return pairs
